@@ -251,3 +251,31 @@ def swap_module(src: str) -> str:
     sw = _Swapper()
     sw.visit(tree)
     return ast.unparse(ast.fix_missing_locations(tree)) + "\n"
+
+
+class _Noop(ast.NodeTransformer):
+    """A harmless statement (`assert True`) is inserted at the start of every function body (after the docstring) and of
+    every loop body: rules must not depend on a construct being the *first* statement of its block."""
+
+    def _stmt(self, at):
+        return ast.copy_location(ast.Assert(test=ast.Constant(value=True), msg=None), at)
+
+    def visit_FunctionDef(self, node):
+        self.generic_visit(node)
+        k = 1 if node.body and isinstance(node.body[0], ast.Expr) and isinstance(node.body[0].value, ast.Constant) and isinstance(node.body[0].value.value, str) else 0
+        if len(node.body) > k:
+            node.body.insert(k, self._stmt(node.body[k]))
+        return node
+
+    def visit_For(self, node):
+        self.generic_visit(node)
+        node.body.insert(0, self._stmt(node.body[0]))
+        return node
+
+    visit_While = visit_For
+
+
+def noop_module(src: str) -> str:
+    tree = ast.parse(src)
+    _Noop().visit(tree)
+    return ast.unparse(ast.fix_missing_locations(tree)) + "\n"
